@@ -128,8 +128,10 @@ func printResult(r *sym.HarnessResult) {
 	for _, u := range r.SolverErrors {
 		fmt.Printf("   SOLVER-ERROR %s\n", u)
 	}
-	for _, u := range r.InitProblems {
-		fmt.Printf("   INIT %s\n", u)
+	if os.Getenv("GOSYM_SHOWINIT") != "" {
+		for _, u := range r.InitProblems {
+			fmt.Printf("   INIT %s\n", u)
+		}
 	}
 	var missing []string
 	for _, l := range r.MustReach {
